@@ -1,12 +1,14 @@
-(* Extraction for C06: Lee canonical cycles on the cube complex.  ExtrOcamlBasic only. *)
+(* Extraction for C06: Lee canonical cycles on the cube complex, and the definition-level oracle
+   `ss_spec` of the s-type invariant (Model/KhSs.v).  ExtrOcamlBasic only. *)
 Require Extraction.
 Require Import ExtrOcamlBasic.
 From Coq Require Import ZArith NArith List.
-Require Import Yui.Model.KhCube Yui.Model.KhSigns Yui.Model.KhHomology Yui.Model.KhLee.
+Require Import Yui.Model.KhCube Yui.Model.KhSigns Yui.Model.KhHomology Yui.Model.KhLee Yui.Model.KhSs.
 Extraction Language OCaml.
 Extraction "../ocaml/gen/c06_model.ml"
   Z.add N.add Nat.add
   KhSigns.signed_nums KhSigns.kh_crossing_signs
   KhCube.mirror KhCube.first_edge KhCube.circles
   KhHomology.build_cube KhHomology.kh_groups
-  KhLee.lee_check KhLee.seifert_state.
+  KhLee.lee_check KhLee.seifert_state
+  KhSs.ss_spec KhSs.ss_dims KhSs.ss_setup KhSs.ss_divs KhSs.div_c.
